@@ -72,11 +72,17 @@ REQUIRED_PROBES = {
     "C09": ["reconnect_same_pair", "connect_steals_both", "connect_steals_one", "disconnect_unlinked"],
     "C13": ["relay_competing_commands", "newest_not_at_side1", "relayed_two_hops"],
     "C20": ["actuator_sees_nothing", "pid_wrapper_fed", "pid_wrapper_drives_motor"],
-    "C04": ["time_shift_twin", "scaling_twin", "present_after_reset", "recovery_checked"],
+    "C04": ["time_shift_twin", "scaling_twin", "present_after_reset", "recovery_checked", "composed_twin"],
     "C05": ["err_then_2_present", "present_after_reset", "absent_deletion_twin", "recovery_checked"],
-    "C10": ["time_shift_twin", "misdim_panic", "err_then_2_present"],
+    "C10": ["time_shift_twin", "misdim_panic", "err_then_2_present", "composed_twin"],
     "C11": ["set_same_twin", "present_after_reset"],
     "C12": ["variant_twin", "ma_multi_sample_window", "ewma_first_sample"],
+}
+
+# coverage spaces that a batch must reach completely (enumerated by run index), per property
+REQUIRED_CELLS = {
+    "C09": {"C09": 3590},            # every (reachable matching, connect/disconnect) pair on 2..6 terminals
+    "C16": {"C16.nary": 1020, "C16.axle": 9, "C16.terminal": 6},
 }
 
 RULES = {
@@ -188,6 +194,7 @@ def write_evidence(prop, tier, seed, world, res, violations, known_hits, wall, e
         "ill_conditioned_skipped": res["counts"].get("ill_conditioned_skipped", 0),
         "cells_reached": res["cells_reached"],
         "cells_by_space": res.get("cells_by_space", {}),
+        "cells_total": REQUIRED_CELLS.get(prop, {}),
         "trace_digest": res["trace_xor"] + res["trace_sum"],
         "components": COMPONENTS.get(world, {}),
         "known_findings_reproduced": known_hits,
@@ -259,6 +266,11 @@ def sim_collect(prop, tier, seed, binary=None, tag=""):
         lines.append("  signature=%s detail=%s (run %d, %d ops minimised to %d)" % (
             f["signature"], f["detail"], f["run"], f["ops_original"], f["ops_minimised"]))
     missing = [p for p in REQUIRED_PROBES.get(prop, []) if res["reach_probes"].get(p, 0) == 0]
+    if not runs:
+        for space, total in REQUIRED_CELLS.get(prop, {}).items():
+            got = res.get("cells_by_space", {}).get(space, 0)
+            if got != total:
+                missing.append("cells %s %d/%d" % (space, got, total))
     shutil.rmtree(tmpdir, ignore_errors=True)
     return dict(res=res, lines=lines, violations=violations, known_hits=known_hits, missing=missing)
 
